@@ -4,6 +4,7 @@ from hugr import Wire, ops
 from hugr import tys as ht
 
 from guppylang_internals.ast_util import get_type
+from guppylang_internals.checker.core import contains_subscript
 from guppylang_internals.checker.modifier_checker import non_copyable_front_others_back
 from guppylang_internals.compiler.cfg_compiler import compile_cfg
 from guppylang_internals.compiler.core import CompilerContext, DFContainer
@@ -169,6 +170,12 @@ def compile_modified_block(
             for c, new_c in zip(control.ctrl, unpacked, strict=False):
                 assert isinstance(c, PlaceNode)
                 dfg[c.place] = new_c
+                # A control that was lent out of an array has to be put back, like a
+                # borrowed function argument
+                if subscript := contains_subscript(c.place):
+                    assert subscript.setitem_call is not None
+                    dfg[subscript.setitem_call.value_var] = dfg[subscript]
+                    expr_compiler.compile(subscript.setitem_call.call, dfg)
 
     for arg in captured:
         if InputFlags.Inout in arg.flags:
